@@ -171,13 +171,18 @@ def run(case, base, idx):
     ids = {id(o): n for n, o in enumerate(objs)}
     p = ArgumentParser(exit_on_error=False)
     dflts = []
+    # validate(cfg, branch="g"): every argument is declared below the branch key, the argument is the branch namespace
+    prefix = "g." if case["op"]["op"] == "validate_branch" else ""
     for key, t, d in case["parser"]:
         dv = val(d)
         dflts.append(dv)
-        p.add_argument("--" + key, type=mk_type(t), default=dv)
+        if t[0] == "nargs":                       # a list-valued action
+            p.add_argument("--" + prefix + key, type=mk_type(t[1]), nargs="*", default=dv)
+        else:
+            p.add_argument("--" + prefix + key, type=mk_type(t), default=dv)
     acts = {a.dest: a for a in p._actions}
     for (key, _, d), dv in zip(case["parser"], dflts):
-        if "r" in d and acts[key].default is not dv:
+        if "r" in d and acts[prefix + key].default is not dv:
             raise SystemExit("tie broken: add_argument copied the default object of --" + key)
     op = case["op"]
     kind = op["op"]
@@ -205,6 +210,8 @@ def run(case, base, idx):
                 result = p.parse_path(f)
         elif kind == "validate":
             p.validate(val(op["a"]))
+        elif kind == "validate_branch":
+            p.validate(val(op["a"]), branch="g")
         elif kind == "dump":
             p.dump(val(op["a"]), skip_validation=op["skipval"])
         elif kind == "save":
